@@ -54,7 +54,7 @@ static inline void gen_partition(Tape &t, unsigned n, R L, std::vector<MfSet> &o
         R c = n > 1 ? -L + step * k : 0;
         R w = step * wide;
         MfSet s{};
-        unsigned fam = family == 3 ? t.u8() % 6 : family;
+        unsigned fam = family == 3 ? t.u8() % 10 : family;
         bool first = k == 0, last = k + 1 == n;
         switch (fam)
         {
@@ -85,6 +85,20 @@ static inline void gen_partition(Tape &t, unsigned n, R L, std::vector<MfSet> &o
             if (first) { s.type = A_MF_Z; s.par[0] = c; s.par[1] = c + w; }
             else if (last) { s.type = A_MF_S; s.par[0] = c - w; s.par[1] = c; }
             else { s.type = A_MF_PI; s.par[0] = c - w; s.par[1] = c - w / 8; s.par[2] = c + w / 8; s.par[3] = c + w; }
+            break;
+        case 6:
+            s.type = A_MF_GAUSS2;
+            s.par[0] = w / 2; s.par[1] = c - w / 8; s.par[2] = w / 2; s.par[3] = c + w / 8;
+            break;
+        case 7:
+            // sigmoid shoulders at the ends, difference of sigmoids inside
+            if (first) { s.type = A_MF_SIG; s.par[0] = -4 / w; s.par[1] = c + w / 2; }
+            else if (last) { s.type = A_MF_SIG; s.par[0] = 4 / w; s.par[1] = c - w / 2; }
+            else { s.type = A_MF_DSIG; s.par[0] = 4 / w; s.par[1] = c - w / 2; s.par[2] = 4 / w; s.par[3] = c + w / 2; }
+            break;
+        case 8:
+            s.type = A_MF_PSIG;
+            s.par[0] = 4 / w; s.par[1] = c - w / 2; s.par[2] = -4 / w; s.par[3] = c + w / 2;
             break;
         default:
             s.type = A_MF_GBELL;
